@@ -8,6 +8,9 @@ SecretKeyExtended::from_bytes.
        256 x 256 (byte 0, byte 31)
   M1 : TLC's clamping table (all 2^3 x 2^2 clamping-bit combinations x filler patterns; thorough: all 65 536 byte pairs)
        replayed into SecretKeyExtended::from_bytes / try_from with random other bytes
+  M1': fixed family of ~270 degenerate / edge triples (neutral and other small-order A and R, S = 0, 1, 8, L-1, L, L+1,
+       high bits, R + torsion, mixed-order A, all-zero key, non-canonical and off-curve encodings) x 3 messages: facts and
+       answers (pallas twice, reference) logged, TLC computes the RFC 8032 class and the allowed answers (EdgeEd25519.tla)
   M3 : random standard and extended keys, messages 0..1024 bytes; public keys and signatures from pallas and from the
        reference; verify by both on issued triples, crossed triples and single-bit tamperings of message / key / signature
 """
@@ -31,12 +34,55 @@ def short(ev):
     return dict((k, (v[:40] + "..") if isinstance(v, str) and len(v) > 42 else v) for k, v in ev.items())
 
 
+def edge_vectors(ctx, binary):
+    """Fixed family of degenerate / edge triples: facts + answers logged by the harness, judged by TLC
+    (EdgeEd25519.tla: class and allowed answers per RFC 8032 5.1.7). Returns number of failures reported."""
+    ef = ctx.path("edge.ndjson")
+    ctx.run_bin(binary, ["ed25519-edge", "--out", ef])
+    events = vlib.read_ndjson(ef)
+    jf = ctx.path("edge_judged.ndjson")
+    ctx.tlc_gen("crypto", "EdgeEd25519", "EdgeEd25519.cfg", jf, env={"TRACE": ef})
+    rows = vlib.read_ndjson(jf)
+    nvec = sum(1 for e in events if e["ev"] == "edge_verify")
+    if len(rows) != nvec or nvec < 200:
+        raise vlib.ToolError("edge vectors: %d logged, %d judged" % (nvec, len(rows)))
+    classes, bad, drift, refdev = {}, 0, {}, 0
+    for r in rows:
+        e = events[r["i"] - 1]
+        classes[r["class"]] = classes.get(r["class"], 0) + 1
+        if r["verdict"] == "bad-facts":
+            raise vlib.ToolError("edge vector %s: inconsistent facts from the harness" % r["name"])
+        if r["verdict"] != "ok":
+            bad += 1
+            group = "all-zero-public-key" if not any(e["a"]) else r["name"]
+            ctx.report("edge_verify/%s/%s" % (group, r["verdict"]),
+                       "PublicKey::verify on edge vector '%s' (class %s, msg %s): pallas-crypto answers %s, reference %s; "
+                       "RFC 8032 5.1.7 fixes the other answer" % (r["name"], r["class"], e["msg"][:16] or "empty", r["pallas"], r["ref"]),
+                       payload={"judgement": r, "vector": e})
+        if r["drift"]:
+            drift[r["class"]] = drift.get(r["class"], 0) + 1
+        if r["reference_deviates"]:
+            refdev += 1
+    ctx.cov["edge_vectors"] = nvec
+    ctx.cov["edge_classes"] = classes
+    ctx.cov["traces_validated_against_impl"] += nvec
+    ctx.cov["evaluations"] += nvec
+    ctx.sample({"edge_vector_judged": rows[0]})
+    for c, n in sorted(drift.items()):
+        ctx.notes.append("DRIFT: %d edge vector(s) of the RFC-open class '%s' answered differently by pallas-crypto and the reference" % (n, c))
+    if refdev:
+        ctx.notes.append("note: the reference itself deviates from the RFC-fixed answer on %d edge vector(s)" % refdev)
+    return bad, events, ef
+
+
 def run(ctx):
     binary = ctx.build("pv-crypto")
     ctx.assume("Ed25519 is uninterpreted: agreement with RFC 8032 is decided on the three 7.1 vectors and, for all traced keys and "
                "messages, as equality with ed25519-dalek through the shared learned functions")
-    ctx.assume("'accepts exactly what the reference accepts' is decided for issued, crossed and single-bit-tampered triples, not for "
-               "adversarial encodings (small-order points, non-canonical S)")
+    ctx.assume("'accepts exactly what the reference accepts' is decided for issued, crossed and single-bit-tampered triples and for a fixed "
+               "family of degenerate triples; there the RFC-fixed classes (S >= L, undecodable, equation holds / fails with canonical "
+               "encodings) are judged, the RFC-open ones (cofactor ambiguity, non-canonical point encodings) only for determinism")
+    ctx.assume("group-equation facts of the edge vectors (eq1, eq8, decodability) are computed by the harness with curve25519-dalek")
     ctx.tlc_mc("crypto", "MCEd25519", "MCEd25519.cfg", workers=4, required_actions=["PublicKey", "Sign", "Verify", "FromBytes"])
     ctx.cov["evaluations"] += 65536 * 2 + 32
 
@@ -68,6 +114,9 @@ def run(ctx):
             ctx.report("from_bytes/k0&7=%d/k31>>6=%d" % (b["k0"] & 7, b["k31"] >> 6),
                        "SecretKeyExtended::from_bytes(byte0=%d, byte31=%d): specification says accept=%s, got %s"
                        % (b["k0"], b["k31"], b["want"], b.get("got", b.get("panic"))), payload=b)
+
+    # M1': degenerate / edge triples, judged by TLC
+    edge_bad, edge_events, edge_file = edge_vectors(ctx, binary)
 
     # M3
     tr = ctx.path("ed_trace.ndjson")
@@ -117,7 +166,7 @@ def run(ctx):
     ctx.cov["traces_validated_against_impl"] += len(cs) - fails
     nbad += fails
 
-    if not nbad:
+    if not nbad:          # (known edge-vector findings do not suppress the self-tests)
         def check(name, evs, expect_at):
             p = ctx.path("selftest_%s.ndjson" % name.split()[0])
             vlib.write_ndjson(p, evs)
@@ -151,6 +200,19 @@ def run(ctx):
         r1 = ctx.path("clamp_corrupt_results.ndjson")
         ctx.run_bin(binary, ["ed25519-clamp-replay", "--in", p1, "--out", r1, "--seed", ctx.seed, "--fills", 1])
         ctx.selftest("clamping expectation corrupted", len(vlib.read_ndjson(r1)[0]["bad"]) == 1)
+        # edge vectors: flip the logged answer of the honest triple and of an S >= L triple
+        ce = [dict(e) for e in edge_events]
+        ih = next(i for i, e in enumerate(ce) if e.get("name") == "honest")
+        ce[ih]["ok"] = ce[ih]["ok2"] = False
+        il = next(i for i, e in enumerate(ce) if e.get("name") == "honest/S+L")
+        ce[il]["ok"] = ce[il]["ok2"] = True
+        p4 = ctx.path("edge_corrupt.ndjson")
+        vlib.write_ndjson(p4, ce)
+        j4 = ctx.path("edge_corrupt_judged.ndjson")
+        ctx.tlc_gen("crypto", "EdgeEd25519", "EdgeEd25519.cfg", j4, env={"TRACE": p4})
+        jr = {r["i"]: r for r in vlib.read_ndjson(j4)}
+        ctx.selftest("edge: honest triple logged as rejected / S+L triple logged as accepted",
+                     jr[ih + 1]["verdict"] == "rejects-valid" and jr[il + 1]["verdict"] == "accepts-invalid")
 
     return ctx.finish(
         rule="MC: scheme algebra on 2 keys x 2 messages, clamping predicate on all 65 536 byte pairs; M1: clamping table replayed into "
